@@ -171,3 +171,54 @@ let rec real_locs (x : sexp) : (int * Stdlib.String.t) list =
     | A "map" :: _ :: _ :: _ :: entries :: _ -> List.map (fun e -> match e with L [_; v] -> v | _ -> failwith "m") (items entries)
     | _ -> [] in
   (id, loc) :: List.concat_map real_locs kids
+
+(* ---- values, environments, entries (semantic commands) ---------------------- *)
+
+let rec z_of_int (i : int) : z = if i = 0 then Z0 else if i > 0 then Zpos (pos_of_int i) else Zneg (pos_of_int (- i))
+
+let rec value_of (x : sexp) : value =
+  match x with
+  | L [A "int"; A n] -> VInt (z_of_int (int_of_string n))
+  | L [A "bool"; A b] -> VBool (b = "1")
+  | L [A "str"; A h] -> VStr (coq_string (unhex h))
+  | L [A "unit"] -> VUnit
+  | L [A "ref"; v] -> VRefV (value_of v)
+  | L [A "box"; v] -> VBoxV (value_of v)
+  | L (A "tuple" :: vs) -> VTupleV (List.map value_of vs)
+  | L (A "struct" :: A name :: fs) ->
+      VStructV (coq_string (unhex name),
+                List.map (fun f -> match f with L [A fname; v] -> (coq_string (unhex fname), value_of v) | _ -> failwith "field") fs)
+  | L (A "variant" :: A name :: vs) -> VVariantV (coq_string (unhex name), List.map value_of vs)
+  | L (A "vec" :: vs) -> VVecV (List.map value_of vs)
+  | L (A "map" :: kvs) ->
+      VMapV (List.map (fun kv -> match kv with L [k; v] -> (value_of k, value_of v) | _ -> failwith "kv") kvs)
+  | _ -> failwith "value"
+
+let caller_of (x : sexp) : (Model.string * value) list =
+  List.map (fun b -> match b with L [A n; v] -> (coq_string (unhex n), value_of v) | _ -> failwith "binding") (items x)
+
+let units_of (x : sexp) : Model.string list = List.map (fun a -> coq_string (unhex (atom a))) (items x)
+
+let node_display_of (nodes : node list) (id : n) : Stdlib.String.t =
+  match List.find_opt (fun nd -> int_of_n nd.n_id = int_of_n id) nodes with
+  | Some nd -> ocaml_string (node_display (node_kind_of nd.n_desc))
+  | None -> "<undefined node>"
+
+let actual_text (a : atext) : Stdlib.String.t =
+  match a with
+  | TDebug v -> ocaml_string (debug v)
+  | TMapLen n -> Printf.sprintf "map with %d entries" (int_of_nat n)
+  | TMissingKey -> "missing key"
+  | TSetLen n -> Printf.sprintf "%d element(s)" (int_of_nat n)
+
+let entries_to_string (nodes : node list) (es : entry list) : Stdlib.String.t =
+  Stdlib.String.concat ";"
+    (string_of_int (List.length es) ::
+     List.map (fun e -> Printf.sprintf "%s|%s|%s" (hex (node_display_of nodes e.en_node)) (hex (actual_text e.en_actual))
+                          (match e.en_expected with None -> "none" | Some s -> hex (ocaml_string s))) es)
+
+let trace_to_string (tr : event list) : Stdlib.String.t =
+  let c p = List.length (List.filter p tr) in
+  Printf.sprintf "root=%d,method=%d,index=%d,debug=%d"
+    (c (fun e -> e = EvRoot)) (c (fun e -> match e with EvMethod _ -> true | _ -> false))
+    (c (fun e -> e = EvIndex)) (c (fun e -> match e with EvDebug _ -> true | _ -> false))
